@@ -119,7 +119,36 @@ class Folder:
             out = {}
             for k, v in zip(node.keys, node.values):
                 if k is None:
-                    raise AnalysisError("dict unpacking in a folded table")
+                    # `**f()` over a module-level function without arguments that builds its dict from literal rows: folded by the
+                    # checker's own evaluator (sa/minieval.py); anything it cannot evaluate stays an analysis error
+                    sub = None
+                    if isinstance(v, ast.Call) and isinstance(v.func, ast.Name) and not v.args and not v.keywords and v.func.id in self.repo.functions:
+                        from .minieval import EV, MiniEval, Raised, Unsupported
+                        try:
+                            kind, val = MiniEval(self.repo, self, "").call(self.repo.functions[v.func.id], {})
+                        except (Unsupported, Raised) as exc:
+                            raise AnalysisError(f"dict unpacking in a folded table: {unparse(v)} is not foldable ({exc})")
+
+                        def conv(x):
+                            if isinstance(x, EV):
+                                return EnumVal(x.cls, x.name, x.value)
+                            if isinstance(x, list):
+                                return [conv(y) for y in x]
+                            if isinstance(x, tuple):
+                                return tuple(conv(y) for y in x)
+                            if isinstance(x, dict):
+                                return {conv(a): conv(b) for a, b in x.items()}
+                            return x
+                        if isinstance(val, dict):
+                            sub = conv(val)
+                    if sub is None:
+                        raise AnalysisError("dict unpacking in a folded table")
+                    for kk, vv in sub.items():
+                        if kk in out:
+                            out[("DUP", kk, len(out))] = vv
+                        else:
+                            out[kk] = vv
+                    continue
                 kk = self.fold(k, env)
                 if kk in out:
                     out[("DUP", kk, len(out))] = self.fold(v, env)
